@@ -3,15 +3,18 @@
 M1: MC_DMS enumerates the decoder on every short string over the abstract alphabet, grammar products, every alternative
     spelling of every symbol, the LatLon/Angle/Azimuth token lattice, the encoder carry lattice, the number lattice and the
     GeoCoords token-dispatch / UTM-UPS string lattice, checking closure and normalisation invariants on the model;
-    MC_LineTool explores the line protocol state machine.
+    MC_LineTool explores the line protocol state machine (and the polygon protocol of Planimeter); MC_ToolLines classifies
+    a lattice of input lines per tool, mode and option set.
 M2: every vector is executed on the real library (drv_dms replay, each item crash-isolated); every line sequence is fed to
-    the real GeoConvert / GeodSolve processes.
+    the real GeoConvert / GeodSolve / RhumbSolve / TransverseMercatorProj / ConicProj / GeodesicProj / CartConvert /
+    IntersectTool / Planimeter processes.
 M3: Trace_DMS decides every observation exactly (lattice and generated/mutated strings) and validates the seeded
     round-trip laws (half a unit of the last digit + 4 ulp); Trace_LineTool validates the tools' stdout and exit status."""
 import concurrent.futures as cf
 import json
 import os
 import subprocess
+import time
 
 import vlib
 
@@ -21,7 +24,8 @@ LEVEL_TEXT = ('Exact TLA+ model of the DMS decoder (symbol table, piece splittin
               'GeoCoords token dispatch; TLC enumerates the string / carry lattices, checks closure (Decode o Encode = id) and '
               'normalisation on the model, every vector is replayed on the real code and every observation (including seeded '
               'generated and mutated strings) is decided exactly by TLC; round-trip laws at all precisions and the line protocol '
-              'of GeoConvert/GeodSolve are validated on traces.')
+              'of GeoConvert/GeodSolve and of seven more tools (ERROR lines, exit status, output items, comments, forward/reverse '
+              'round trips, polygon counts) are validated on traces.')
 DESIGN_REF = 'DESIGN.md section 4, C10'
 LEVEL_NOTE = ('Trusted: TLC, DMS.tla/NumText.tla/GeoCoordsText.tla (written from DMS.hpp, Utility.hpp, GeoCoords.hpp, the man pages), '
               'the driver quantisation. Not decided: values of strings with more than 8 digits of degrees (class only); MGRS strings '
@@ -77,15 +81,136 @@ def run_tool(exe, args, lines):
     return out, (rc if rc >= 0 else 128 - rc), (-rc if rc < 0 else 0)
 
 
-def tool_stage(ctx, vals):
-    """M1: MC_LineTool (all good/bad sequences); M2: the sequences realised with spec-classified lines are fed to the real
-    tools; M3: Trace_LineTool validates every line and the exit status."""
+TM, CP, GP, CC, IT, RS, PL = 'TransverseMercatorProj', 'ConicProj', 'GeodesicProj', 'CartConvert', 'IntersectTool', 'RhumbSolve', 'Planimeter'
+
+
+def R(tool, mode, prec=3, proj='', w=False, cd=0, dms=0, c1=0, c2=0, l0=0, rt=False, fprec=0):
+    """Options of one run = the Reset record of its trace (ToolText.tla reads it)."""
+    return dict(e='Reset', tool=tool, mode=mode, proj=proj, prec=prec, w=w, cd=cd, dms=dms, c1=c1, c2=c2, l0=l0, rt=rt, fprec=fprec)
+
+
+NEW_RUNS = [
+    R(RS, 'dir'), R(RS, 'dir', 0, dms=100), R(RS, 'dir', 2, dms=58, w=True), R(RS, 'dir', 3, cd=35), R(RS, 'dir', 1, proj='E'),
+    R(RS, 'inv'), R(RS, 'inv', 1, dms=100, cd=35), R(RS, 'inv', 0, w=True),
+    R(TM, 'fwd'), R(TM, 'fwd', 0, proj='s', w=True), R(TM, 'fwd', 6, proj='t', cd=35, l0=9), R(TM, 'rev'), R(TM, 'rev', 0, proj='s', cd=35),
+    R(TM, 'rev', 2, w=True),
+    R(CP, 'fwd', 3, proj='c', c1=40, c2=60), R(CP, 'fwd', 2, proj='a', c1=40, c2=60, w=True, l0=-10), R(CP, 'fwd', 1, proj='c', c1=-30, c2=-30, cd=35),
+    R(CP, 'rev', 3, proj='c', c1=40, c2=60), R(CP, 'rev', 1, proj='a', c1=40, c2=60, cd=35), R(CP, 'rev', 0, proj='a', c1=20, c2=50, w=True),
+    R(GP, 'fwd', 3, proj='z', c1=45, c2=10), R(GP, 'fwd', 1, proj='c', c1=45, c2=10, cd=35), R(GP, 'fwd', 2, proj='g', c1=30, c2=0, w=True),
+    R(GP, 'rev', 3, proj='z', c1=45, c2=10), R(GP, 'rev', 0, proj='c', c1=45, c2=10, w=True), R(GP, 'rev', 2, proj='g', c1=30, c2=0, cd=35),
+    R(CC, 'fwd'), R(CC, 'fwd', 2, proj='l', c1=33, c2=44, w=True), R(CC, 'fwd', 0, cd=35), R(CC, 'rev'), R(CC, 'rev', 1, proj='l', c1=33, c2=44, cd=35),
+    R(CC, 'rev', 0, w=True),
+    R(IT, 'c'), R(IT, 'c', 0, w=True), R(IT, 'c', 2, cd=35), R(IT, 'n'), R(IT, 'n', 1, cd=35), R(IT, 'i'), R(IT, 'i', 0, w=True), R(IT, 'i', 2, cd=35),
+    R(IT, 'o', 2), R(IT, 'o', 3, cd=35),
+    R(PL, 'poly', 6), R(PL, 'poly', 3, w=True), R(PL, 'poly', 6, cd=35), R(PL, 'line', 6), R(PL, 'poly', 5, proj='R'), R(PL, 'line', 2, proj='Q', cd=35),
+]
+# round trips: forward at -p 6, its x y (z) given to the reverse projection at -p 0
+RT_RUNS = [R(TM, 'fwd', 6), R(TM, 'fwd', 6, proj='s', l0=9, w=True), R(CP, 'fwd', 6, proj='c', c1=40, c2=60), R(CP, 'fwd', 6, proj='a', c1=20, c2=50, l0=-10),
+           R(GP, 'fwd', 6, proj='z', c1=45, c2=10), R(GP, 'fwd', 6, proj='c', c1=30, c2=0, w=True), R(GP, 'fwd', 6, proj='g', c1=30, c2=-10),
+           R(CC, 'fwd', 6), R(CC, 'fwd', 6, proj='l', c1=33, c2=44, w=True)]
+
+
+def tool_args(c):
+    """Command line of a run (the options as the man pages name them)."""
+    t, a = c['tool'], []
+    if t == RS:
+        a += (['-i'] if c['mode'] == 'inv' else []) + (['-E'] if c['proj'] == 'E' else [])
+    elif t == TM:
+        a += (['-' + c['proj']] if c['proj'] else []) + ['-l', str(c['l0'])]
+    elif t == CP:
+        a += ['-' + c['proj'], str(c['c1']), str(c['c2']), '-l', str(c['l0'])]
+    elif t == GP:
+        a += ['-' + c['proj'], str(c['c1']), str(c['c2'])]
+    elif t == CC:
+        a += ['-l', str(c['c1']), str(c['c2']), '20'] if c['proj'] == 'l' else []
+    elif t == IT:
+        a += ['-' + c['mode']]
+    elif t == PL:
+        a += (['-l'] if c['mode'] == 'line' else []) + (['-' + c['proj']] if c['proj'] else [])
+    if c['mode'] == 'rev':
+        a += ['-r']
+    a += ['-p', str(c['prec'])] + {0: [], 100: ['-d'], 58: ['-:']}[c['dms']] + (['-w'] if c['w'] else [])
+    if c['cd']:
+        a += ['--comment-delimiter', chr(c['cd'])]
+    return a
+
+
+def more_tool_jobs(ctx, seqs, pseqs, tlvals):
+    """Runs of RhumbSolve, TransverseMercatorProj, ConicProj, GeodesicProj, CartConvert, IntersectTool and Planimeter: every
+    good/bad pattern of MC_LineTool realised with lines that MC_ToolLines classified under the options of the run."""
+    import random
+    rng = random.Random(1000003 * int(ctx.seed) + 10)
+    quick = ctx.quick
+    pools = {}
+    for v in tlvals:
+        if v[0] == 'tl' and 10 not in v[5]:
+            pools.setdefault((v[1], v[2], v[3], v[4], v[6]), []).append(bytes(v[5]))
+    exes = {t: vlib.build_tool(t) for t in (TM, CP, GP, CC, IT, RS, PL)}
+    nmix = 2 if quick else 12
+
+    def pool(c, cls, mode=None):
+        k = (c['tool'], {'line': 'poly'}.get(mode or c['mode'], mode or c['mode']), c['w'], c['cd'], cls)
+        if len(pools.get(k, [])) < (1 if cls == 'any' else 5):
+            raise vlib.FrameworkError('tool stage: line pool too small: %s %d' % (k, len(pools.get(k, []))))
+        return pools[k]
+
+    def mixes(c, pbad, pany):
+        good, bad, anyl = pool(c, 'good'), pool(c, 'bad'), pool(c, 'any')
+        res = []
+        for m in range(nmix):
+            # Planimeter: a line of class any makes the counts of the whole run undecided, so only the first mix has such lines
+            pa = 0 if c['tool'] == PL and m > 0 else pany
+            res.append([rng.choice(anyl) if rng.random() < pa else rng.choice(bad) if rng.random() < pbad else rng.choice(good) for _ in range(40)])
+        return res
+    jobs = []
+    for c in NEW_RUNS:
+        good, bad = pool(c, 'good'), pool(c, 'bad')
+        pats = pseqs if c['tool'] == PL else seqs
+        if quick:               # a seeded sample of the patterns per configuration (every pattern is used by several configurations)
+            pats = rng.sample(pats, 12)
+        for pat in pats:
+            jobs.append((c, exes[c['tool']], tool_args(c), [rng.choice(bad if b else good) for b in pat], None))
+        for lines in mixes(c, 0.3, 0.1):
+            jobs.append((c, exes[c['tool']], tool_args(c), lines, None))
+    for c in RT_RUNS:
+        good, bad = pool(c, 'good'), pool(c, 'bad')
+        back = dict(c, mode='rev', prec=0, rt=True, fprec=c['prec'])
+        chain = (back, tool_args(back), 3 if c['tool'] == CC else 2)
+        for pat in [p for p in seqs if len(p) <= 2]:
+            jobs.append((c, exes[c['tool']], tool_args(c), [rng.choice(bad if b else good) for b in pat], chain))
+        for lines in mixes(c, 0.1, 0.05):
+            jobs.append((c, exes[c['tool']], tool_args(c), lines, chain))
+    return jobs
+
+
+def tool_models(ctx):
+    """M1 of the tool stage (independent of the text lattices, so it is started first): MC_LineTool for the ERROR protocol and
+    for the polygon protocol of Planimeter, MC_ToolLines for the classified line pools.  Returns (seqs, pseqs, tlvals)."""
     quick = ctx.quick
     maxlines = 4 if quick else 7
-    cfg = ctx.cfg('MC_LineTool', 'INIT Init\nNEXT Next\nCONSTANT MaxLines = %d\nINVARIANTS ProtoInv Emit\nCHECK_DEADLOCK FALSE\n' % maxlines)
-    seqs = [v[1] for v in ctx.generate('MC_LineTool', cfg, workers=2, timeout=600, heap='1g') if v and v[0] == 'seq']
-    if len(seqs) < 2 ** maxlines:
-        raise vlib.FrameworkError('MC_LineTool emitted %d sequences' % len(seqs))
+
+    def gen_seqs(kind):
+        cfg = ctx.cfg('MC_LineTool' if kind == 'line' else 'MC_LineTool_poly',
+                      'INIT Init\nNEXT Next\nCONSTANTS MaxLines = %d Kind = "%s"\nINVARIANTS ProtoInv PolyInv Emit\nCHECK_DEADLOCK FALSE\n' % (maxlines, kind))
+        tag = 'seq' if kind == 'line' else 'pseq'
+        res = [v[1] for v in ctx.generate('MC_LineTool', cfg, workers=2, timeout=600, heap='1g') if v and v[0] == tag]
+        if len(res) < 2 ** maxlines:
+            raise vlib.FrameworkError('MC_LineTool (%s) emitted %d sequences' % (kind, len(res)))
+        return res
+
+    def gen_pools():
+        cfg = ctx.cfg('MC_ToolLines', 'INIT Init\nNEXT Next\nCONSTANTS NChunks = 15 Thin = %d\nINVARIANTS ClassInv Emit\nCHECK_DEADLOCK FALSE\n' % (4 if quick else 1))
+        return ctx.generate('MC_ToolLines', cfg, workers=4 if quick else 8, timeout=1200, heap='2g')
+    with cf.ThreadPoolExecutor(3) as ex:
+        fseq, fpseq, fpool = ex.submit(gen_seqs, 'line'), ex.submit(gen_seqs, 'poly'), ex.submit(gen_pools)
+        return fseq.result(), fpseq.result(), fpool.result()
+
+
+def tool_stage(ctx, vals, models):
+    """M1: MC_LineTool (all good/bad sequences), MC_ToolLines; M2: the sequences realised with spec-classified lines are fed to
+    the real tools; M3: Trace_LineTool validates every line and the exit status."""
+    quick = ctx.quick
+    seqs, pseqs, tlvals = models
     pools = {}
     for v in vals:
         if v[0] == 'gc' and 10 not in v[1] and v[2] is True and v[3] is False:
@@ -108,36 +233,53 @@ def tool_stage(ctx, vals):
         for pat in seqs + extra:
             lines = [rng.choice(gc_bad if b else good) for b in pat]
             hdr = dict(e='Reset', tool='GeoConvert', mode=mode, prec=prec, w=w, c=c, dms=0)
-            jobs.append((hdr, geoconvert, ['-' + mode, '-p', str(prec)] + (['-w'] if w else []) + ([] if c else ['-n']), lines))
+            jobs.append((hdr, geoconvert, ['-' + mode, '-p', str(prec)] + (['-w'] if w else []) + ([] if c else ['-n']), lines, None))
     for mode, dms in GS_MODES:
         good, bad = pools[('gs', mode, 'good')], pools[('gs', mode, 'bad')]
         for pat in seqs + extra:
             lines = [rng.choice(bad if b else good) for b in pat]
             hdr = dict(e='Reset', tool='GeodSolve', mode=mode, prec=2, w=False, c=True, dms=dms)
             args = (['-i'] if mode == 'inv' else []) + ['-p', '2'] + ({0: [], 100: ['-d'], 58: ['-:']}[dms])
-            jobs.append((hdr, geodsolve, args, lines))
+            jobs.append((hdr, geodsolve, args, lines, None))
+    jobs += more_tool_jobs(ctx, seqs, pseqs, tlvals)
 
     def one(job):
-        hdr, exe, args, lines = job
+        hdr, exe, args, lines, chain = job
         out, status, sig = run_tool(exe, args, lines)
         recs = [hdr]
+        if hdr['tool'] == 'Planimeter':
+            recs += [dict(e='vtx', inp=list(ln)) for ln in lines]
+            recs.append(dict(e='pend', status=status, nin=len(lines), outs=[list(o) for o in out], signal=sig))
+            return recs
         for i, ln in enumerate(lines):
             has = i < len(out)
             recs.append(dict(e='line', inp=list(ln), has=has, out=list(out[i]) if has else []))
         recs.append(dict(e='end', status=status, nin=len(lines), nout=len(out), signal=sig))
+        if chain:
+            # second half of a round trip: the leading items of every output line go to the reverse run
+            hdr2, args2, nitems = chain
+            lines2 = [b' '.join(o.split()[:nitems]) for o in out]
+            out2, status2, sig2 = run_tool(exe, args2, lines2)
+            recs.append(hdr2)
+            for i, ln in enumerate(lines2):
+                has = i < len(out2)
+                recs.append(dict(e='line', inp=list(ln), has=has, out=list(out2[i]) if has else [], src=list(lines[i]), fout=list(out[i])))
+            recs.append(dict(e='end', status=status2, nin=len(lines2), nout=len(out2), signal=sig2))
         return recs
-    with cf.ThreadPoolExecutor(8) as ex:
+    t0 = time.time()
+    with cf.ThreadPoolExecutor(12) as ex:
         allrecs = list(ex.map(one, jobs))
+    vlib.log('tool stage: %d runs in %.1fs' % (len(jobs), time.time() - t0))
     tf = ctx.path('trace-tools.ndjson')
     nlines = 0
     with open(tf, 'w') as f:
         for recs in allrecs:
             for r in recs:
                 f.write(json.dumps(r, separators=(',', ':')) + '\n')
-                nlines += r['e'] == 'line'
+                nlines += r['e'] in ('line', 'vtx')
     ctx.cov['behaviours_replayed'] += len(jobs)
     ctx.cov['distinct_nontrivial'] += nlines
-    n, rej = ctx.validate('Trace_LineTool', 'Trace_LineTool', tf, shards=8, group_key='Reset')
+    n, rej = ctx.validate('Trace_LineTool', 'Trace_LineTool', tf, shards=12 if quick else vlib.NCPU, group_key='Reset')
     ctx.cov['traces_validated_against_impl'] += 1
     ctx.report_rejects(rej, tf)
     ctx.law('tool-runs', len(jobs))
@@ -195,6 +337,9 @@ def run(ctx):
     exe = vlib.build_driver('drv_dms', 'plain')
     exe_san = None if quick else vlib.build_driver('drv_dms', 'san')
 
+    mex = cf.ThreadPoolExecutor(1)
+    fmodels = mex.submit(tool_models, ctx)
+
     def gen(part):
         cfg = ctx.cfg('MC_DMS_' + part, mc_cfg(part, quick))
         return ctx.generate('MC_DMS', cfg, workers=3 if quick else 8, timeout=3000, heap='4g')
@@ -228,7 +373,7 @@ def run(ctx):
     def validate(tf):
         return tf, ctx.validate('Trace_DMS', 'Trace_DMS', tf, shards=8 if quick else vlib.NCPU, group_key=None)
     with cf.ThreadPoolExecutor(3) as ex:
-        ftool = ex.submit(tool_stage, ctx, vals)
+        ftool = ex.submit(tool_stage, ctx, vals, fmodels.result())
         fcal = ex.submit(calendar_stage, ctx)
         results = list(ex.map(validate, traces))
         ftool.result()
@@ -257,10 +402,12 @@ RULE = ('vectors enumerated by TLC from MC_DMS: every string of length <= 3 (qui
         'at every position; LatLon/Angle/Azimuth token lattice; encoder lattice (degrees x carry points x precision 0..4 x flag x '
         'separator x -1/0/+1 ulp, half units, precision clamp); number lattice (val, str, fract, nummatch, ParseLine, lookup, trim); '
         'GeoCoords token dispatch and UTM/UPS strings on a quarter-unit lattice at precisions -5..3; all good/bad line sequences up to '
-        'length 4 (quick) for GeoConvert/GeodSolve under each output mode; plus seeded random records. distinct_nontrivial = distinct '
-        'lattice vectors + tool lines.')
-TRUSTED = ['TLC', 'DMS.tla, NumText.tla, GeoCoordsText.tla, LineTool.tla (written from the headers and man pages)',
-           'drv_dms.cpp (quantisation of angles to 1e-5 arc second units, residuals in long double)', 'props/c10_tools.py (runs the tools, logs lines)']
+        'length 4 (quick) for GeoConvert/GeodSolve under each output mode; the same patterns (quick: 12 of the 31 per configuration) '
+        'for 48 configurations of RhumbSolve, TransverseMercatorProj, ConicProj, GeodesicProj, CartConvert, IntersectTool and '
+        'Planimeter, realised with lines from the field / token-count / separator / comment lattice of MC_ToolLines, and 9 '
+        'forward -> reverse round trips; plus seeded random records. distinct_nontrivial = distinct lattice vectors + tool lines.')
+TRUSTED = ['TLC', 'DMS.tla, NumText.tla, GeoCoordsText.tla, LineText.tla, ToolText.tla, LineTool.tla (written from the headers and man pages)',
+           'drv_dms.cpp (quantisation of angles to 1e-5 arc second units, residuals in long double)', 'props/C10.py tool_stage (builds the command lines, runs the tools, logs lines, cuts the leading items of a forward output line for the reverse run)']
 
 
 def replay(ctx, path):
